@@ -69,17 +69,26 @@ theorem slice_eq_cons {s : Array Nat} {i j x : Nat} {r : List Nat} (h : slice s 
 def d (lo hi : Nat) : RE := .cls [.range lo hi] false
 def dg : RE := .cls [.digit] false
 
-/-- `1\d{2}|2[0-4]\d|25[0-5]|0?[1-9]\d|0{0,2}\d` in the translator's normal form -/
-def octetRE : RE :=
-  .alt (.seq (d 49 49) (.seq (.rep (.seq dg .eps) 2 2 true) .eps))
-  (.alt (.seq (d 50 50) (.seq (d 48 52) (.seq dg .eps)))
+/-- The octet alternation `1D{2}|2[0-4]D|25[0-5]|0?[1-9]D|0{0,2}D` in the translator's normal form, for a digit
+class `D` = `x` (`[0-9]` since /repo commit d5d414a77, `\d` before it). -/
+def octetOf (x : RE) : RE :=
+  .alt (.seq (d 49 49) (.seq (.rep (.seq x .eps) 2 2 true) .eps))
+  (.alt (.seq (d 50 50) (.seq (d 48 52) (.seq x .eps)))
   (.alt (.seq (d 50 50) (.seq (d 53 53) (.seq (d 48 53) .eps)))
-  (.alt (.seq (.rep (.seq (d 48 48) .eps) 0 1 true) (.seq (d 49 57) (.seq dg .eps)))
-        (.seq (.rep (.seq (d 48 48) .eps) 0 2 true) (.seq dg .eps)))))
+  (.alt (.seq (.rep (.seq (d 48 48) .eps) 0 1 true) (.seq (d 49 57) (.seq x .eps)))
+        (.seq (.rep (.seq (d 48 48) .eps) 0 2 true) (.seq x .eps)))))
 
-def ipv4RE : RE :=
-  .seq .wordB (.seq (.grp 1 (.seq octetRE .eps)) (.seq (.grp 2 (.seq (.rep (.seq (.grp 3 (.seq (d 46 46)
-    (.seq (.grp 4 (.seq octetRE .eps)) .eps))) .eps) 3 3 true) .eps)) (.seq .wordB .eps)))
+def ipv4Of (x : RE) : RE :=
+  .seq .wordB (.seq (.grp 1 (.seq (octetOf x) .eps)) (.seq (.grp 2 (.seq (.rep (.seq (.grp 3 (.seq (d 46 46)
+    (.seq (.grp 4 (.seq (octetOf x) .eps)) .eps))) .eps) 3 3 true) .eps)) (.seq .wordB .eps)))
+
+/-- the current pattern: digit class `[0-9]` -/
+def octetRE : RE := octetOf (d 48 57)
+def ipv4RE : RE := ipv4Of (d 48 57)
+
+/-- REGRESSION ONLY — the pattern as it was before /repo commit d5d414a77 (`\d` instead of `[0-9]`); nothing is
+regenerated into this, it is the literal pre-fix shape kept for the negative theorem about defect #8. -/
+def ipv4PreFixRE : RE := ipv4Of dg
 
 /-- the tie to the working tree: what the translator emitted for `BaseIp.Ipv4Regex` is this shape -/
 theorem gen_ipv4 : RTV.Gen.ipv4Regex = ipv4RE := by decide
@@ -106,10 +115,23 @@ theorem seq_dg {T : Tables} {s : Array Nat} {i j : Nat} {b : RE} (hd : AsciiDigi
   · rintro ⟨_, ⟨h1, h2⟩, h3⟩; exact ⟨h1, h2, h3⟩
   · rintro ⟨h1, h2, h3⟩; exact ⟨code_lt_size (by omega), ⟨h1, h2⟩, h3⟩
 
-theorem octetRE_lang {T : Tables} (hd : AsciiDigits T) (s : Array Nat) (i j : Nat) :
-    j ∈ ends T s octetRE i ↔ OctetAt s i j := by
-  unfold octetRE OctetAt isD d
-  simp only [mem_alt, seq_rep_succ, seq_rep_zero, seq_seq, seq_eps, seq_dg hd,
+/-- what the proofs need of the digit class `x`: it accepts exactly one ASCII digit -/
+def DigitClass (T : Tables) (x : RE) : Prop :=
+  ∀ (s : Array Nat) (b : RE) (i j : Nat),
+    j ∈ ends T s (.seq x b) i ↔ 48 ≤ code s i ∧ code s i ≤ 57 ∧ j ∈ ends T s b (i + 1)
+
+/-- `[0-9]` is a digit class for every tables -/
+theorem digitClass_range (T : Tables) : DigitClass T (d 48 57) := by
+  intro s b i j; unfold d; exact seq_range (by decide)
+
+/-- `\d` is one when `\d` means ASCII digit -/
+theorem digitClass_dg {T : Tables} (hd : AsciiDigits T) : DigitClass T dg := by
+  intro s b i j; exact seq_dg hd
+
+theorem octetOf_lang {T : Tables} {x : RE} (hx : DigitClass T x) (s : Array Nat) (i j : Nat) :
+    j ∈ ends T s (octetOf x) i ↔ OctetAt s i j := by
+  unfold octetOf OctetAt isD d
+  simp only [mem_alt, seq_rep_succ, seq_rep_zero, seq_seq, seq_eps, hx s,
     seq_range (by decide : 0 < 48), seq_range (by decide : 0 < 49),
     seq_range (by decide : 0 < 50), seq_range (by decide : 0 < 53), mem_eps]
   have e2 : i + 1 + 1 = i + 2 := by omega
@@ -119,9 +141,9 @@ theorem octetRE_lang {T : Tables} (hd : AsciiDigits T) (s : Array Nat) (i j : Na
   clear e2 e3
   grind (splits := 60)
 
-theorem seq_octet {T : Tables} (hd : AsciiDigits T) {s : Array Nat} {i j : Nat} {b : RE} :
-    j ∈ ends T s (.seq octetRE b) i ↔ ∃ k, OctetAt s i k ∧ j ∈ ends T s b k := by
-  simp only [mem_seq, octetRE_lang hd]
+theorem seq_octet {T : Tables} {x : RE} (hx : DigitClass T x) {s : Array Nat} {i j : Nat} {b : RE} :
+    j ∈ ends T s (.seq (octetOf x) b) i ↔ ∃ k, OctetAt s i k ∧ j ∈ ends T s b k := by
+  simp only [mem_seq, octetOf_lang hx]
 
 def DotOct (s : Array Nat) (i j : Nat) : Prop := code s i = 46 ∧ OctetAt s (i + 1) j
 
@@ -129,10 +151,10 @@ def DotOct (s : Array Nat) (i j : Nat) : Prop := code s i = 46 ∧ OctetAt s (i 
 def V4Body (s : Array Nat) (i j : Nat) : Prop :=
   ∃ k1, OctetAt s i k1 ∧ ∃ k2, DotOct s k1 k2 ∧ ∃ k3, DotOct s k2 k3 ∧ DotOct s k3 j
 
-theorem ipv4RE_lang {T : Tables} (hd : AsciiDigits T) (s : Array Nat) (i j : Nat) :
-    j ∈ ends T s ipv4RE i ↔ isWordB T s i = true ∧ V4Body s i j ∧ isWordB T s j = true := by
-  unfold ipv4RE V4Body DotOct d
-  simp only [seq_wordB, seq_grp, seq_seq, seq_eps, seq_rep_succ, seq_rep_zero, seq_octet hd,
+theorem ipv4Of_lang {T : Tables} {x : RE} (hx : DigitClass T x) (s : Array Nat) (i j : Nat) :
+    j ∈ ends T s (ipv4Of x) i ↔ isWordB T s i = true ∧ V4Body s i j ∧ isWordB T s j = true := by
+  unfold ipv4Of V4Body DotOct d
+  simp only [seq_wordB, seq_grp, seq_seq, seq_eps, seq_rep_succ, seq_rep_zero, seq_octet hx,
     seq_range (by decide : 0 < 46), mem_eps, Nat.reduceSub, false_and, or_false, Nat.succ_ne_zero]
   constructor
   · rintro ⟨hb, k1, h1, a1, b1, k2, h2, a2, b2, k3, h3, a3, b3, k4, h4, -, hb', rfl⟩
